@@ -4,6 +4,7 @@ import LapyVerif.Props.C06
 import LapyVerif.Props.C03
 import LapyVerif.Bridge.DiffGeo
 import LapyVerif.Bridge.Fem
+import LapyVerif.Bridge.Poisson
 /- axiom audit of C08 (ingredients, then the composition theorems of Props/C08.lean) -/
 #print axioms LapyVerif.Props.C06.triDiv_sum_zero
 #print axioms LapyVerif.Props.C06.tetDiv_sum_zero
@@ -51,3 +52,10 @@ import LapyVerif.Bridge.Fem
 #print axioms LapyVerif.Props.C08.tsSq_triN
 #print axioms LapyVerif.Props.C08.tsSq_nonDegen
 #print axioms LapyVerif.Props.C08.tsSq_oriented
+#print axioms LapyVerif.Bridge.free_idx
+#print axioms LapyVerif.Bridge.poisson_system
+#print axioms LapyVerif.Bridge.poisson_result
+#print axioms LapyVerif.Bridge.poisson_run
+#print axioms LapyVerif.Bridge.poisson_system_neumann
+#print axioms LapyVerif.Bridge.poisson_result_neumann
+#print axioms LapyVerif.Bridge.poisson_format
